@@ -12,7 +12,7 @@
    case (12 fmt #template #tail lo hi)                          the length field set to every
         observed ((dec) (unzip) (res ...))                       value lo <= L < hi   (ReadPacket)
    case (13 fmt #stream)                                        a real TcpConn (reader pump) on a
-        observed (nerr errkind (pkt ...) closed timedout late)   loopback connection is sent the stream
+        observed (nerr errkind (pkt ...) closed timedout late dcount dkind)
           nerr = errors notified, errkind = kind of the first, pkts = frames delivered before it,
           closed = the peer saw the connection closed, late = frames/errors after the first error,
           timedout = 1: the scenario did not finish in time (inconclusive, no verdict)
@@ -73,7 +73,8 @@ Fixpoint check_singles (dec : bytes -> bytes) (unzip : bytes -> option bytes) (f
                check_that (N.eqb (d_wanted m) (Z.to_N wanted) && N.eqb (d_maxcap m) (Z.to_N maxcap))
                           (VMismatch 4);
                (* the payload buffer handed back has exactly the capacity the model allocates *)
-               check_that ((retcap <? 0)%Z || N.eqb (d_alloc m) (Z.to_N retcap)) (VMismatch 5) ] in
+               check_that (((retcap <? 0)%Z || N.eqb (d_alloc m) (Z.to_N retcap))
+                           && negb (Z.eqb aflag 3)) (VMismatch 5) ] in
       let prop :=
         vall [ bounded fmt pn (Z.to_N wanted) (Z.to_N maxcap);
                check_that ((retcap <? 0)%Z || (Z.to_N retcap <=? fmt_max fmt)) (VPropFail 3);
@@ -97,20 +98,23 @@ Definition one_chunk (b : bytes) : stream := match b with [] => [] | _ => [b] en
 Definition check_res (dec : bytes -> bytes) (unzip : bytes -> option bytes) (fmt : Z)
            (has_dec : bool) (data : bytes) (must_fail must_refuse : bool) (o : sx) : verdict :=
   match o with
-  | SList [SInt pn; SInt kind; SInt consumed; SInt wanted; SInt maxcap] =>
+  | SList [SInt pn; SInt kind; SInt consumed; SInt wanted; SInt maxcap; SInt aflag] =>
       if Z.eqb pn 2 then VOk else
       let m := model_decode dec unzip fmt has_dec (lenN data) (one_chunk data) in
       let corr :=
         vall [ check_that (Z.eqb (d_kind m) (if Z.eqb pn 0 then kind else (-1)%Z)) (VMismatch 1);
                check_that (N.eqb (d_consumed m) (Z.to_N consumed)) (VMismatch 3);
                check_that (N.eqb (d_wanted m) (Z.to_N wanted) && N.eqb (d_maxcap m) (Z.to_N maxcap))
-                          (VMismatch 4) ] in
+                          (VMismatch 4);
+               (* reproduced: much more allocated than the buffers the decoder visibly used *)
+               check_that (negb (Z.eqb aflag 3)) (VMismatch 5) ] in
       let prop :=
         vall [ bounded fmt pn (Z.to_N wanted) (Z.to_N maxcap);
+               check_that (negb (Z.eqb aflag 1)) (VPropFail 4);
                check_that (negb must_fail || negb (Z.eqb kind 0)) (VPropFail 5);
                check_that (negb must_refuse ||
                            (Z.eqb kind 3 && (Z.to_N maxcap <=? fmt_hs fmt)
-                            && (Z.to_N wanted <=? fmt_hs fmt))) (VPropFail 6) ] in
+                            && (Z.to_N wanted <=? fmt_hs fmt) && negb (Z.eqb aflag 3))) (VPropFail 6) ] in
       vjoin prop corr
   | _ => VBad
   end.
@@ -179,7 +183,7 @@ Fixpoint packets_eqb (a b : list packet) : bool :=
 
 Definition check_conn (fmt : Z) (data : bytes) (obs : list sx) : verdict :=
   match obs with
-  | [SInt nerr; SInt kind; SList pks; SInt closed; SInt timedout; SInt late] =>
+  | [SInt nerr; SInt kind; SList pks; SInt closed; SInt timedout; SInt late; SInt dcount; SInt dkind] =>
       if Z.eqb timedout 1 then VOk else
       match map_opt sx_packet pks with
       | Some got =>
@@ -194,9 +198,11 @@ Definition check_conn (fmt : Z) (data : bytes) (obs : list sx) : verdict :=
           let prop :=
             (* a decode error (or the end of the stream) closes the connection: exactly one
                error is reported, the peer sees the close, nothing is delivered afterwards *)
-            vall [ check_that (Z.eqb nerr 1) (VPropFail 8);
+            (* dcount / dkind: how many frames the decoder itself (ReadPacket called in a loop on
+               the same bytes, no connection) returns before its first error, and that error *)
+            vall [ check_that (Z.eqb nerr 1 && Z.eqb kind dkind) (VPropFail 8);
                    check_that (Z.eqb closed 1) (VPropFail 9);
-                   check_that (Z.eqb late 0) (VPropFail 10) ] in
+                   check_that (Z.eqb late 0 && Z.eqb (Z.of_nat (length got)) dcount) (VPropFail 10) ] in
           vjoin prop corr
       | None => VBad
       end
